@@ -634,6 +634,65 @@ def shadow_give_up_bound(rep, idx, rule):
         rep.unk(rule, site, what, "no `raise ValueError` guarded by a comparison of the shadow size with a threshold was found in prepare()")
 
 
+def shadow_chunk_keys(rep, idx, rule):
+    """_Shadow.prepare() files every chunk under the shadow offset that decode_address() produced for it (the key of the
+    `registers` table), and gives the Chunk that same offset: elaborate() turns the key back into bus addresses with
+    encode_offset().  Keys that are merely consecutive numbers (an enumerate() counter over the sorted table) agree with the
+    offsets only while no offset is unused."""
+    import ast as _ast
+    try:
+        f = idx.find_func("csr/bus:Multiplexer._Shadow.prepare")
+    except Exception:
+        rep.unk(rule, "csr/bus.py", "shadow chunks are keyed by their decoded offset", "_Shadow.prepare not found")
+        return
+    site = f.site
+    what = "shadow chunks are keyed by their decoded offset"
+    stores = []
+    parents = {}
+    for n in _ast.walk(f.node):
+        for ch in _ast.iter_child_nodes(n):
+            parents[ch] = n
+    for n in _ast.walk(f.node):
+        if isinstance(n, _ast.Assign) and len(n.targets) == 1 and isinstance(n.targets[0], _ast.Subscript) and \
+                _ast.unparse(n.targets[0].value) == "self._chunks":
+            stores.append(n)
+        if isinstance(n, _ast.DictComp) and isinstance(parents.get(n), _ast.Assign) and \
+                _ast.unparse(parents[n].targets[0]) == "self._chunks":
+            stores.append(n)
+    if not stores:
+        rep.unk(rule, site, what, "no store into self._chunks found")
+        return
+    for st in stores:
+        if isinstance(st, _ast.DictComp):
+            key, gens = st.key, st.generators
+            loop_target, loop_iter = gens[0].target, gens[0].iter
+        else:
+            key = st.targets[0].slice
+            loop = parents.get(st)
+            while loop is not None and not isinstance(loop, _ast.For):
+                loop = parents.get(loop)
+            if loop is None:
+                rep.unk(rule, site, what, f"`{_ast.unparse(st)[:60]}` is not inside a loop")
+                continue
+            loop_target, loop_iter = loop.target, loop.iter
+        it = loop_iter
+        while isinstance(it, _ast.Call) and isinstance(it.func, _ast.Name) and it.func.id in ("sorted", "list", "tuple") and it.args:
+            it = it.args[0]
+        counted = isinstance(it, _ast.Call) and isinstance(it.func, _ast.Name) and it.func.id == "enumerate"
+        if counted and isinstance(loop_target, _ast.Tuple) and isinstance(loop_target.elts[0], _ast.Name) and isinstance(key, _ast.Name) and \
+                key.id == loop_target.elts[0].id:
+            rep.bad(rule, site, what,
+                    f"the chunks are filed under `{key.id}`, the position in `{_ast.unparse(loop_iter)[:50]}`, not under the offset "
+                    "decode_address() computed: as soon as one shadow offset is unused (a register of 3, 5, 6, 7 chunks above a hole) the "
+                    "numbers and the offsets part, encode_offset() of a chunk's key names another address, and that chunk is read and "
+                    "written at the wrong place", line=getattr(st, 'lineno', None))
+            continue
+        items = isinstance(it, _ast.Call) and isinstance(it.func, _ast.Attribute) and it.func.attr == "items"
+        ok = items and isinstance(loop_target, _ast.Tuple) and isinstance(loop_target.elts[0], _ast.Name) and isinstance(key, _ast.Name) and \
+            key.id == loop_target.elts[0].id
+        rep.form(bool(ok), rule, site, what, f"`{_ast.unparse(key)}` for `{_ast.unparse(loop_target)}` in `{_ast.unparse(loop_iter)[:60]}`")
+
+
 def _lin_show(d):
     parts = []
     for k, v in d.items():
@@ -748,6 +807,42 @@ def chunk_width(rep, rule, idx, c, SH=None):
                   f"created with granularity {ir.show(a0) if a0 else None}; expected self.bus.data_width")
 
 
+def _comb_only_local(idx, f, name):
+    """The local signal `name` of elaborate() has drivers, and all of them are combinational."""
+    try:
+        from .common import get_ctx
+        c = get_ctx(idx, f)
+        for s_ in c.t.sigs.values():
+            if s_.name == name:
+                S = ('sig', s_.id, s_.name)
+                ds = [d_ for d_ in c.t.drivers if any(x == S for x in ir.walk(c.norm(d_.target)))]
+                if ds and not getattr(c.t, "unsupported", None):
+                    return all(d_.domain == "comb" for d_ in ds)
+    except Exception:
+        pass
+    # the walk did not get there: read it off the statements -- the name receives `.eq()` under m.d.comb and never under another domain
+    import ast as _ast
+    comb = other = 0
+    for st in _ast.walk(f.node):
+        if not (isinstance(st, _ast.AugAssign) and isinstance(st.op, _ast.Add)):
+            continue
+        tgt = _ast.unparse(st.target).replace('"', "'")
+        if not (tgt.startswith("m.d.") or tgt.startswith("m.d[")):
+            continue
+        dom_comb = tgt in ("m.d.comb", "m.d['comb']")
+        for x in _ast.walk(st.value):
+            if isinstance(x, _ast.Call) and isinstance(x.func, _ast.Attribute) and x.func.attr == "eq":
+                r = x.func.value
+                while isinstance(r, (_ast.Subscript, _ast.Attribute)):
+                    r = r.value
+                if isinstance(r, _ast.Name) and r.id == name:
+                    if dom_comb:
+                        comb += 1
+                    else:
+                        other += 1
+    return comb > 0 and other == 0
+
+
 def reset_discipline(rep, rule, idx, class_specs, allowed=(), allowed_init=(), allowed_role=None):
     """Every register a property's initial-state clause relies on takes part in the domain reset: no Signal(...) /
     Signal.like(...) created by the given classes passes reset_less (other than a literal False).  `allowed` lists
@@ -794,6 +889,10 @@ def reset_discipline(rep, rule, idx, class_specs, allowed=(), allowed_init=(), a
                             if k.arg in ("init", "reset") and name is not None and fn == "Signal":
                                 txt = _ast.unparse(k.value)
                                 if allowed_init.get((cls.qual, name)) == txt or (isinstance(k.value, _ast.Constant) and k.value.value in (0, False)):
+                                    continue
+                                if f.name == "elaborate" and _comb_only_local(idx, f, name):
+                                    # a combinational wire: its `init` is the value it takes when no assignment is active, which the
+                                    # decision lists of the property's main rule use as the default -- not a reset value
                                     continue
                                 if isinstance(k.value, _ast.Constant):
                                     rep.bad(rule, f.site, f"register `{name}` starts at its documented initial value",
